@@ -1,6 +1,6 @@
 (* E-hiertree, model side: input = the whole line of harness/src/eng_hiertree.rs,
      "<stem cps>~<dump>|...@<l:c,...>|...#<implementation's answers>"
-   output: the answers in the same format (see eng_hiertree.rs), computed by HierTree.prepare /
+   output: "<l:c,...>|...#<answers>": the positions echoed, the answers in the format of eng_hiertree.rs, computed by HierTree.prepare /
    supertypes_of / subtypes_of over Forest.build on HierTree.forest_input_of_ws.
    A part whose outcome is Outside (needs machinery that is not modelled: the tables of other documents, eval
    types) is printed as '?' followed by the implementation's own answer for that part (canon = drop the '?');
@@ -61,11 +61,11 @@ let run_case (line : string) : string =
     let head = Stdlib.String.sub line 0 h in
     let impl = Stdlib.String.sub line (h + 1) (Stdlib.String.length line - h - 1) in
     match split '@' head with
-    | [dumps; poss] ->
+    | [dumps; poss_s] ->
       let docs = Stdlib.List.map (fun d -> match split '~' d with
           | [st; dump] -> (cps_or_dash st, Tree_io.node_of_string dump)
           | _ -> failwith "bad document") (if dumps = "" then [] else split '|' dumps) in
-      let poss = Stdlib.Array.of_list (split '|' poss) in
+      let poss = Stdlib.Array.of_list (split '|' poss_s) in
       let impls = Stdlib.Array.of_list (split '|' impl) in
       let tr = class_tree docs in
       let out = Stdlib.List.mapi (fun k d ->
@@ -85,5 +85,5 @@ let run_case (line : string) : string =
                   ((match supertypes_of docs tr it with Outside -> "?" ^ is | Ans r -> show_res true r),
                    (match subtypes_of docs tr it with Outside -> "?" ^ ib | Ans r -> show_res true r)) in
               "P" ^ pstr ^ "S" ^ s ^ "B" ^ b) ps)) docs in
-      Stdlib.String.concat "|" out
+      poss_s ^ "#" ^ Stdlib.String.concat "|" out
     | _ -> failwith "bad case"
